@@ -438,6 +438,11 @@ func init() {
 				out = append(out, base+"."+bn, bn, base+"-"+bn, bn+"+b1", base+"."+bn+"~rc1")
 			}
 		}
+		if r.IntN(4) == 0 { // equal-length runs of 20-90 digits that differ in one digit (head, middle, tail)
+			for _, bn := range gen.LongRunFamily(r, 5) {
+				out = append(out, base+"."+bn, bn, base+"-"+bn)
+			}
+		}
 		for k := 0; k < 26; k++ {
 			s := base + gen.Pick(r, tails...)
 			if r.IntN(3) == 0 {
@@ -465,6 +470,11 @@ func init() {
 		if r.IntN(3) == 0 { // same-length big-number neighbours in version and release
 			for _, bn := range gen.BigFamily(r, 5) {
 				out = append(out, base+"."+bn, bn, base+"-"+bn, bn+"^1", base+"."+bn+"~rc1")
+			}
+		}
+		if r.IntN(4) == 0 { // equal-length runs of 20-90 digits that differ in one digit (head, middle, tail)
+			for _, bn := range gen.LongRunFamily(r, 5) {
+				out = append(out, base+"."+bn, bn, base+"-"+bn)
 			}
 		}
 		for k := 0; k < 28; k++ {
